@@ -15,6 +15,8 @@ pub struct SimAlloc;
 const TABLE_BITS: usize = 18;
 const TABLE_SIZE: usize = 1 << TABLE_BITS;
 const QUAR_CAP: usize = 1 << 16;
+const QSET_BITS: usize = 18;
+const QSET_SIZE: usize = 1 << QSET_BITS;
 
 /// No field has a destructor, so the thread-local never registers one and stays usable
 /// for the whole life of the thread (the allocator runs during thread teardown too).
@@ -26,6 +28,10 @@ struct Tracker {
     overflow: Cell<bool>,
     quar: Cell<*mut (usize, usize, usize)>,
     quar_len: Cell<usize>,
+    /// open addressing set of the addresses currently in quarantine (double-free detection)
+    qset: Cell<*mut usize>,
+    /// first double free seen in this execution: (address, size)
+    double_free: Cell<(usize, usize)>,
 }
 
 thread_local! {
@@ -43,6 +49,8 @@ thread_local! {
         overflow: Cell::new(false),
         quar: Cell::new(std::ptr::null_mut()),
         quar_len: Cell::new(0),
+        qset: Cell::new(std::ptr::null_mut()),
+        double_free: Cell::new((0, 0)),
     } };
 }
 
@@ -63,6 +71,8 @@ impl Tracker {
                 System.alloc_zeroed(Layout::array::<(usize, usize, usize)>(QUAR_CAP).unwrap())
                     as *mut (usize, usize, usize),
             );
+            self.qset
+                .set(System.alloc_zeroed(Layout::array::<usize>(QSET_SIZE).unwrap()) as *mut usize);
         }
     }
     unsafe fn insert(&self, addr: usize, size: usize) -> bool {
@@ -140,11 +150,38 @@ impl Tracker {
         self.used.set(0);
         self.overflow.set(false);
     }
+    /// true if the address is already quarantined (= this free is a double free)
+    unsafe fn qset_insert(&self, addr: usize) -> bool {
+        let t = self.qset.get();
+        if t.is_null() {
+            return false;
+        }
+        let mask = QSET_SIZE - 1;
+        let mut i = ((addr >> 4).wrapping_mul(0x9E37_79B9_7F4A_7C15usize)) >> (64 - QSET_BITS);
+        loop {
+            let c = *t.add(i);
+            if c == addr {
+                return true;
+            }
+            if c == 0 {
+                *t.add(i) = addr;
+                return false;
+            }
+            i = (i + 1) & mask;
+        }
+    }
     unsafe fn quar_push(&self, e: (usize, usize, usize)) -> bool {
         let q = self.quar.get();
         let n = self.quar_len.get();
         if q.is_null() || n >= QUAR_CAP {
             return false;
+        }
+        if self.qset_insert(e.0) {
+            // freed twice while in quarantine: keep the first entry, remember the event
+            if self.double_free.get().0 == 0 {
+                self.double_free.set((e.0, e.1));
+            }
+            return true;
         }
         *q.add(n) = e;
         self.quar_len.set(n + 1);
@@ -320,6 +357,18 @@ pub fn quarantine_raw(ptr: usize, size: usize, align: usize) {
     BUSY.with(|b| b.set(false));
 }
 
+/// A block was freed twice while quarantine was on (address, size), if any; clears it.
+pub fn take_double_free() -> Option<(usize, usize)> {
+    TRACKER.with(|t| {
+        let d = t.double_free.replace((0, 0));
+        if d.0 == 0 {
+            None
+        } else {
+            Some(d)
+        }
+    })
+}
+
 /// Really free everything that was quarantined (end of an execution).
 pub fn release_quarantine() {
     QUAR.with(|q| q.set(false));
@@ -333,6 +382,10 @@ pub fn release_quarantine() {
             }
         }
         t.quar_len.set(0);
+        let qs = t.qset.get();
+        if !qs.is_null() {
+            std::ptr::write_bytes(qs, 0, QSET_SIZE);
+        }
     });
     BUSY.with(|b| b.set(false));
 }
